@@ -246,6 +246,62 @@ def title_spellings(run):
                 run.traces_validated += 1
 
 
+def feature_orders(run):
+    """One formula per supported function (the C09 feature sheet + rounding, lookups, dates, texts whose modes differ from call to
+    call): the reference value of each cell comes from a FRESH executor that evaluates nothing else; then one executor evaluates
+    all cells in several random orders, twice, through get_cell / get_cells / get_sheet - every reply must be the reference value."""
+    from harness.props import c09
+    feats = dict(c09.workbooks()['w1'][-1][1])
+    extra = ['=ROUND(2.5,0)', '=ROUNDUP(2.1,0)', '=ROUND(2.4,0)', '=ROUNDDOWN(2.9,0)', '=ROUND(-2.5,0)', '=ROUND(2.6,0)', '=ROUNDUP(-2.1,1)', '=ROUND(1250,-2)',
+             '=MATCH(2,A1:A3,1)', '=MATCH(2,A1:A3,0)', '=XMATCH(2,A1:A3,0,1)', '=XMATCH(2,A1:A3,0,-1)', '=VLOOKUP(2,A1:C3,2,TRUE)', '=VLOOKUP(2,A1:C3,2,FALSE)',
+             '=DATE(2024,1,31)', '=DATE(2023,2,29)', '=EDATE(DATE(2024,1,31),1)', '=EDATE(DATE(2023,1,31),1)', '=SEARCH("P",D1)', '=SEARCH("p",D2)',
+             '=COUNTIFS(D1:D3,"a*")', '=COUNTIFS(D1:D3,"*r")', '=SUMIFS(A1:A3,B1:B3,">4")', '=SUMIFS(A1:A3,B1:B3,"<6")', '=IFERROR(1/0,"e1")', '=IFERROR(1/1,"e2")',
+             '=TEXT(A1,"0")', '=VALUE("7")', '=A1&B1', '=A1=B1', '=A1<B1', '=NETWORKDAYS(DATE(2024,3,1),DATE(2024,3,31))', '=NETWORKDAYS(DATE(2024,3,31),DATE(2024,3,1))']
+    n0 = max(r for (c, r) in feats if c == 5) + 1
+    for i, f in enumerate(extra):
+        feats[(5, n0 + i)] = f
+    rows = n0 + len(extra)
+    path, py = os.path.join(run.scratch, 'c08_feat.xlsx'), os.path.join(run.scratch, 'c08_feat_gen.py')
+    repo.write_xlsx(path, [('F', feats)])
+    repo.Parser().set_excel_file_path(path).write_translation(py)
+
+    def val(ex, r):
+        try:
+            return ('val', ex.get_cell(repo.Cell(0, 5, r)).value)
+        except repo.E2PyclException:
+            raise
+        except Exception as e:  # noqa
+            return ('exc', type(e).__name__)
+    ref = [val(repo.Executor().set_executed_class(class_file=py), r) for r in range(rows)]
+    rng = random.Random(run.seed + 808)
+    klass = type(repo.Executor().set_executed_class(class_file=py).get_executed_class())
+    for rep in range(6):
+        ex = repo.Executor().set_executed_class(class_file=py) if rep % 2 == 0 else repo.Executor().set_executed_class(class_object=klass)
+        bad = []
+        for round_ in range(2):
+            order = list(range(rows))
+            rng.shuffle(order)
+            if rep % 3 == 1:
+                order.reverse()
+            for r in order:
+                got = val(ex, r)
+                if repr(got) != repr(ref[r]):
+                    bad.append((feats[(5, r)], got, ref[r], f'after {feats[(5, order[max(0, order.index(r) - 1)])]}'))
+            try:
+                grid = ex.get_sheet(0)
+                for r in range(rows):
+                    if ref[r][0] == 'val' and repr(grid[r][5].value) != repr(ref[r][1]):
+                        bad.append((feats[(5, r)], grid[r][5].value, ref[r], 'get_sheet'))
+            except repo.E2PyclException:
+                raise
+            except Exception:
+                pass
+        run.judge({'in': {'executor': 'class_file' if rep % 2 == 0 else 'class_object', 'formulas': rows, 'repetition': rep}, 'obs': str(bad[:4]), 'kind': 'feature_orders'}, not bad,
+                  clause=f'{rows} formula cells evaluated in random orders on one executor: (formula, got, value on a fresh executor, context) {bad[:3]}', part='feature_orders')
+        run.traces_validated += 1
+        run.evaluations += 3 * rows
+
+
 def check(run):
     run.rule = ('query schedules enumerated by TLC (every sequence of <= N queries over 5 single cells, 2 cell lists, 2 '
                 'sheets, for 3 override sets), replayed on one real Executor with random addressing spellings; sizes and '
@@ -257,12 +313,16 @@ def check(run):
     gen(run, w)
     trace(run, w)
     title_spellings(run)
+    feature_orders(run)
 
 
 def replay(run, case):
     global _W
     if case.get('kind') == 'title_spellings':
         title_spellings(run)
+        return
+    if case.get('kind') == 'feature_orders':
+        feature_orders(run)
         return
     w = xc.World(run)
     _W = w
